@@ -143,7 +143,8 @@ package fstxn
 //@   requires opOpen(op) && dirtyInv()
 //@   requires [D1-order] fhIno(fh3) >= 32768 || canLock(fhIno(fh3)) @C06
 //@   allocates cache.Cslot, inode.Inode, []uint64, buf.Buf, marshal.Dec, cell:uint64
-//@   modifies held, cache.Cslot.Obj, map[uint64]*inode.Inode
+//@   modifies held, cache.Cslot.Obj, map[uint64]*inode.Inode, lockedn
+//@   ghostexit lockedn = 1
 //@   ensures [H1-validated] result != nil ==> result.Inum == fhIno(fh3) && result.Gen == fhGen(fh3) && result.Kind != 0 && held == store(old(held), fhIno(fh3), true) && inodeInv(result) && !dirtyinum[result.Inum] && (result.Kind == 2 ==> dirShape(result)) @C08
 //@   ensures [H1-stale] result == nil ==> held == old(held) @C08 @C03
 //@   ensures [I-live-marked] result != nil ==> abits[theIalloc][result.Inum]
